@@ -147,6 +147,8 @@ def big_rows(chrom, ci, n, gap, profile, drops=(), kind="z", spike=None):
     for i in range(n):
         if gap and i == gap_at:
             pos += 1000000
+        if gap == "two" and i == (gap_at + n) // 2:
+            pos += 500000  # a second, smaller hole inside the q arm (haar splits an arm again where it finds one)
         start, end = pos, pos + 1000 + 100 * (i % 3)
         pos += 5000
         level = 0.0
@@ -286,6 +288,10 @@ def cases(tier):
             for kind in ("l", "z"):
                 for n in (120, 400) if t else (120,):
                     yield {"check": "arms", **arms_spec(n, True, "flat", drops, kind, 10, context)}
+    # a chromosome with two large holes: the arm split takes the larger one, haar finds the other inside the q arm
+    for profile in ("flat", "step"):
+        for drops in ([], ["first"], ["last"], ["gap-right"]):
+            yield {"check": "arms", **arms_spec(400, "two", profile, drops, "z", 10)}
     # real pools
     for spec in pool_tables(t):
         yield {"check": "pools", "table": spec}
